@@ -387,7 +387,20 @@ class ExportSim(Sim):
         return False
 
 
+def build_big(seed):
+    rng = subseed(seed, 'universe-big')
+    u = U.generate_big(rng)
+    v = rng.choice(['1.0', '1.1', '1.3'])
+    plan = [{'op': 'add', 'res': 'r0'}, {'op': 'add', 'res': 'r1'},
+            {'op': 'export_reimport', 'specs': ['bige:1'], 'version': v},
+            {'op': 'export_reimport', 'specs': ['bige:1', 'bigl:1'],
+             'version': rng.choice(['1.0', '1.2'])}]
+    return u, plan
+
+
 def build(seed):
+    if subseed(seed, 'big').random() < 0.004:
+        return build_big(seed)     # > 999 synsets per exported lexicon
     rng = subseed(seed, 'universe')
     prof = U.Profile.draw(rng)
     prof['max_entries'] = min(prof['max_entries'], 4)
